@@ -357,7 +357,23 @@ func init() {
 		},
 		"strconv.ParseFloat": func(fr *frame, a []value) value {
 			if !allConcrete(a) {
-				panic(inconclusive{"strconv.ParseFloat on a symbolic string (not encodable)"})
+				// exact on the domain "no digit and none of i, I, n, N": such a text is never a float
+				// (decimal and hex floats need a digit; inf, infinity, nan need i or n)
+				for _, c := range strBytes(a[0]) {
+					switch c := c.(type) {
+					case uint8:
+						if (c >= '0' && c <= '9') || c == 'i' || c == 'I' || c == 'n' || c == 'N' {
+							panic(inconclusive{"strconv.ParseFloat on a partly symbolic string that may spell a number (not encodable)"})
+						}
+					case *Sym:
+						may := symBool(fmt.Sprintf("(or (and (bvuge %s #x30) (bvule %s #x39)) (= %s #x69) (= %s #x49) (= %s #x6e) (= %s #x4e))", c.E, c.E, c.E, c.E, c.E, c.E))
+						if eng.Branch(may) {
+							panic(inconclusive{"strconv.ParseFloat on a symbolic string that may spell a number (not encodable)"})
+						}
+					}
+				}
+				used("strconv.ParseFloat (model: texts without digits and without i/n are not numbers)")
+				return tuple{float64(0), errorValue(fr, "strconv.ParseFloat: parsing: invalid syntax")}
 			}
 			v, err := strconv.ParseFloat(goStr(a[0]), int(asInt64(a[1])))
 			return tuple{v, nativeErr(fr, err)}
@@ -634,6 +650,24 @@ func init() {
 				return mk(types.Float64, "(abs "+lit(a[0])+")")
 			}
 			return mk(types.Float64, "(fp.abs "+lit(a[0])+")")
+		},
+		"math.Min": func(fr *frame, a []value) value {
+			if allConcrete(a) {
+				return math.Min(a[0].(float64), a[1].(float64))
+			}
+			if RealMode {
+				return mk(types.Float64, "(ite (< "+lit(a[0])+" "+lit(a[1])+") "+lit(a[0])+" "+lit(a[1])+")")
+			}
+			panic(inconclusive{"math.Min on symbolic FloatingPoint values"})
+		},
+		"math.Max": func(fr *frame, a []value) value {
+			if allConcrete(a) {
+				return math.Max(a[0].(float64), a[1].(float64))
+			}
+			if RealMode {
+				return mk(types.Float64, "(ite (< "+lit(a[0])+" "+lit(a[1])+") "+lit(a[1])+" "+lit(a[0])+")")
+			}
+			panic(inconclusive{"math.Max on symbolic FloatingPoint values"})
 		},
 		"math.Floor": func(fr *frame, a []value) value {
 			if f, ok := a[0].(float64); ok {
